@@ -361,10 +361,14 @@ class UndocumentedSummaryPage(Page):
         for o in undoccedpublic:
             kind = o.kind
             assert kind is not None  # 'kind is None' makes the object invisible
-            tag(tags.li(
+            item = tags.li(
                 epydoc2stan.format_kind(kind), " - ",
                 tags.code(linker.taglink(o, self.filename))
-                ))
+                )
+            if isPrivate(o):
+                # like the other summary pages: the "Toggle Private API" button of this page hides it
+                item(class_='private')
+            tag(item)
         return tag
 
 def summaryPages(system: model.System) -> Iterable[Type[Page]]:
